@@ -19,3 +19,18 @@ package ecs
 //@   ensures  inv: cacheEntriesInv(c)
 //@   ensures  removed: forall k int :: 0 <= k && k < len(c.filters) ==> !tidsHas(&c.filters[k].tables, table.id)
 //@   ensures  others: forall k int, j tableID :: 0 <= k && k < len(c.filters) && j != table.id ==> tidsHas(&c.filters[k].tables, j) == old(tidsHas(&c.filters[k].tables, j))
+
+// Reset (C16, C05): afterwards no filter is registered -- the entry list and the id index are
+// empty, the id pool is as new -- and every filter that was registered is marked unregistered
+// (its next query is an uncached one; a later Register gives it a fresh entry).
+// The early return rests on "the id index has one entry per filter" (register/unregister keep
+// len(indices) == len(filters)); it is a precondition here.
+//@ func (*cache).Reset
+//@   serves C16 C05
+//@   requires len(c.indices) == len(c.filters)
+//@   requires forall k int :: 0 <= k && k < len(c.filters) ==> c.filters[k].filter != nil
+//@   loop 1 invariant done: forall k int :: 0 <= k && k < __idx ==> c.filters[k].filter.cache == maxCacheID
+//@   loop 1 invariant kept: len(c.filters) == old(len(c.filters)) && (forall k int :: 0 <= k && k < len(c.filters) ==> c.filters[k].filter == old(c.filters[k].filter))
+//@   ensures  empty: len(c.filters) == 0 && len(c.indices) == 0
+//@   ensures  pool: old(len(c.indices)) == 0 || (len(c.intPool.pool) == 0 && c.intPool.available == 0)
+//@   ensures  unregistered: forall k int :: 0 <= k && k < old(len(c.filters)) ==> old(c.filters[k].filter).cache == maxCacheID
